@@ -490,6 +490,7 @@ def build(p):
   # regularizer receive the builder's option (dropped on one path it would contribute zero times there)
   from . import C12
   p.native('hyp_cluster.', D, 'hyp_assign')
+  p.native('mime.mime', D, 'mime_reg')
   C12.v_regularizer_sites(p)
   p.trust('rows model: a vector over the batch rows is its entry at an arbitrary row; jnp.sum / vdot / mean / segment_sum '
           'are SUMROWS of the pointwise expression; x * mask = mask ? x : 0 (mask is 0/1)',
